@@ -449,7 +449,8 @@ impl MixedColBuffer {
                 RawVal::Str(s) => string_col.push(&s),
                 RawVal::Int(i) => string_col.push(&i.to_string()),
                 RawVal::Float(f) => string_col.push(&f.to_string()),
-                RawVal::Null => {}
+                // NULL rows keep a placeholder so that rows do not shift; the present map marks them NULL
+                RawVal::Null => string_col.push(""),
             }
         }
         string_col.finalize(name, present)
